@@ -788,6 +788,13 @@ def run(prog, rep, tier='quick', config='default'):
     from props import anchors
     alias = {}
     sv = anchors.sfl_validation(prog)
+    if sv is None and not getattr(prog, 'is_inlined_view', False) and hasattr(prog, 'inlined'):
+        # the ledger step may only be recognisable with its arm functions spliced in: the alias is a name, the view finds it
+        try:
+            sv = anchors.sfl_validation(prog.inlined())
+            sv = prog.fn(sv.name) if sv is not None else None
+        except Exception:
+            sv = None
     if sv is not None:
         alias[sv.name] = '@sfl_validation'     # private function located by shape: keys survive a rename
         # ... and a split into helpers of the same file (their closures included)
@@ -1079,6 +1086,54 @@ def r5c(prog, rep, require_floor=True):
                                 bounded.setdefault(pid_, 'a dominating test compares it with %s.len()' % fn.describe_local(pid_[0]).split(':')[0])
             if not bounded:
                 continue
+            if yid not in bounded and not related:
+                # the two sequences are two calls of the same read-only accessor on the same, unchanged receiver
+                # (`while i < list.active().len() { let a = list.active(); a[i] }`)
+                def accessor(l_):
+                    d_ = fn.single_def(l_)
+                    hops = 0
+                    while d_ and d_[2] == 'stmt' and hops < 6:
+                        # a re-borrow / copy of the accessor's result
+                        r_ = d_[3]['r']
+                        src_ = r_['pl'] if r_['rv'] == 'ref' else (r_['ops'][0]['pl'] if r_['rv'] == 'use' and is_place(r_['ops'][0]) else None)
+                        if src_ is None or any(e_ != '*' for e_ in src_['p']):
+                            return None
+                        d_ = fn.single_def(src_['l'])
+                        hops += 1
+                    if not d_ or d_[2] != 'call':
+                        return None
+                    c_ = fn.call_at[d_[0]]
+                    h_ = prog.resolve(c_.callee, fn.crate)
+                    if h_ is None or h_.kind not in ('Fn', 'AssocFn') or not c_.args:
+                        return None
+                    if any((fn.ty.get(a_, '') or '').startswith('&mut') or not (fn.ty.get(a_, '') or '').startswith('&') for a_ in c_.arg_locals()):
+                        return None
+                    roots_ = tuple(mir.nearest_user_local(fn, a_) for a_ in c_.args)
+                    if None in roots_:
+                        return None
+                    return (h_.name, roots_, c_)
+                ay = accessor(yid[0]) if not yid[1] else None
+                for pid_ in list(bounded):
+                    ap = accessor(pid_[0]) if not pid_[1] else None
+                    if ay and ap and ay[:2] == ap[:2]:
+                        r_ = set(ay[1])
+                        first, second = (ap[2], ay[2])
+                        # blocks on a way from the first call to the second one that does not come round to the first again (in a loop the
+                        # length is read afresh after every change)
+                        fwd = fn.reachable_from(first.bb, avoid={second.bb})
+                        between = {first.bb, second.bb} | {b_ for b_ in fwd if second.bb in fn.reachable_from(b_, avoid={first.bb})}
+                        mutated = False
+                        for c2 in fn.calls:
+                            if c2.bb in between and c2 is not first and c2 is not second:
+                                for a_ in c2.arg_locals():
+                                    if (fn.ty.get(a_, '') or '').startswith('&mut') and mir.nearest_user_local(fn, {'k': 'copy', 'pl': {'l': a_, 'p': []}}) in r_:
+                                        mutated = True
+                        for b_ in between:
+                            for st_ in fn.blocks[b_]['stmts']:
+                                if st_['dst']['l'] in r_ and st_['dst']['p']:
+                                    mutated = True
+                        if not mutated:
+                            related = True
             n_bounded += 1
             ordn[fn.name] = ordn.get(fn.name, 0) + 1
             k = '%s|index-bounded-by-own-length#%d' % (fn.name, ordn[fn.name])
